@@ -249,6 +249,20 @@ def as_ref_shapes():
         let want = &s.a as *const Inner as usize;
         { let m: &mut Inner = s.as_mut(); assert!(m as *mut Inner as usize == want); }
 """, "a listed type alias of the field's type yields the field itself")
+    # a field that is a reference to the listed type: its type is `&Inner`, not `Inner`, so the listed type is reached through the field's own impl
+    # (`&Inner: AsRef<Inner>` ends in Inner's decoy) - a direct `&self.0` would deref-coerce to the referent and look plausible
+    mk("ref_field_listed_referent", "#[derive(Clone, Copy, derive_more::AsRef)]\n#[as_ref(Inner, u32)]\npub struct R<'a>(pub &'a Inner);\n"
+       "#[derive(derive_more::AsRef, derive_more::AsMut)]\npub struct RM<'a> { #[as_ref(Inner)] #[as_mut(Inner)] pub a: &'a mut Inner, pub b: u8 }",
+       """        let inner = any_inner();
+        let r = R(&inner);
+        assert!(ptr::eq(AsRef::<Inner>::as_ref(&r), &DECOY), "a `&Inner` field listed as `Inner` must go through the field's own AsRef<Inner>");
+        assert!(ptr::eq(AsRef::<u32>::as_ref(&r), &inner.tag));
+        let mut inner2 = any_inner();
+        let mut rm = RM { a: &mut inner2, b: kani::any() };
+        assert!(ptr::eq(AsRef::<Inner>::as_ref(&rm), &DECOY));
+        let decoy_mut = unsafe { core::ptr::addr_of_mut!(DECOY_MUT) } as usize;
+        { let m: &mut Inner = rm.as_mut(); assert!(m as *mut Inner as usize == decoy_mut, "a `&mut Inner` field listed as `Inner` must go through the field's own AsMut<Inner>"); }
+""", "a reference-typed field with its referent type listed: forwarded to the field's own impl, not the referent itself")
     mk("multi_field", D + "pub struct S { #[as_ref] #[as_mut] pub a: Inner, #[as_ref(u32)] #[as_mut(u32)] pub b: Inner, pub c: Side, #[as_ref(forward)] pub d: Side2 }\n"
        "#[derive(Clone, Copy, PartialEq, Debug)]\npub struct Side2(pub [u8; 2]);\nimpl AsRef<[u8; 2]> for Side2 { fn as_ref(&self) -> &[u8; 2] { &self.0 } }",
        """        let mut s = S { a: any_inner(), b: any_inner(), c: any_side(), d: Side2(kani::any()) };
